@@ -5,6 +5,7 @@ package c19
 
 import (
 	"context"
+	"errors"
 	"fmt"
 	"os"
 	"sort"
@@ -12,6 +13,7 @@ import (
 	"time"
 
 	kafka "github.com/segmentio/kafka-go"
+	"github.com/segmentio/kafka-go/protocol"
 
 	"verif/engine/bub"
 	"verif/engine/fk"
@@ -217,6 +219,72 @@ func TestCheck(t *testing.T) {
 				})
 				return st.name, v
 			})
+		}
+		// a failure concerning the partition is reported by the query it hit, and does not alter what later
+		// queries on the same connection report
+		type query struct {
+			name string
+			run  func(conn *kafka.Conn, part *fk.Partition) (string, string, error) // got, want
+		}
+		queries := []query{
+			{"first", func(conn *kafka.Conn, part *fk.Partition) (string, string, error) {
+				o, err := conn.ReadFirstOffset()
+				return fmt.Sprint(o), fmt.Sprint(part.Start), err
+			}},
+			{"last", func(conn *kafka.Conn, part *fk.Partition) (string, string, error) {
+				o, err := conn.ReadLastOffset()
+				return fmt.Sprint(o), fmt.Sprint(part.End), err
+			}},
+			{"offsets", func(conn *kafka.Conn, part *fk.Partition) (string, string, error) {
+				a, b, err := conn.ReadOffsets()
+				return fmt.Sprint(a, b), fmt.Sprint(part.Start, part.End), err
+			}},
+			{"at", func(conn *kafka.Conn, part *fk.Partition) (string, string, error) {
+				o, err := conn.ReadOffset(time.UnixMilli(st.ts0 + 15))
+				wo, _ := part.OffsetFor(st.ts0 + 15)
+				return fmt.Sprint(o), fmt.Sprint(wo), err
+			}},
+			{"seek-end", func(conn *kafka.Conn, part *fk.Partition) (string, string, error) {
+				o, err := conn.Seek(0, kafka.SeekEnd)
+				return fmt.Sprint(o), fmt.Sprint(part.End), err
+			}},
+		}
+		for qi := range queries {
+			for _, code := range []int16{6, 3, 5} {
+				qi, code := qi, code
+				id := fmt.Sprintf("%s %s answered with error %d, then every query", st.name, queries[qi].name, code)
+				s.Case(id, id, func() (string, *seqx.Viol) {
+					var v *seqx.Viol
+					bub.Run(t, 0, func() {
+						c := mkCluster([3]int{si, si, si})
+						injected := false
+						c.Script = func(e *fk.Entry) string {
+							if e.Key == protocol.ListOffsets && !injected {
+								injected = true
+								return fmt.Sprintf("err:%d", code)
+							}
+							return ""
+						}
+						conn, _ := hx.Conn(c, "t", 0)
+						defer conn.Close()
+						part := c.Part("t", 0)
+						_, _, err := queries[qi].run(conn, part)
+						var ke kafka.Error
+						if !errors.As(err, &ke) || int16(ke) != code {
+							v = &seqx.Viol{Sig: "partition-error-not-reported", Msg: fmt.Sprintf("%s answered with error code %d returned %v", queries[qi].name, code, err)}
+							return
+						}
+						for _, q := range queries {
+							got, want, err := q.run(conn, part)
+							if err != nil || got != want {
+								v = &seqx.Viol{Sig: "query-after-partition-error:" + q.name, Msg: fmt.Sprintf("after %s was answered with error code %d, %s on the same connection returned (%s, %v); the cluster holds %s", queries[qi].name, code, q.name, got, err, want)}
+								return
+							}
+						}
+					})
+					return st.name + ":after-error", v
+				})
+			}
 		}
 		for _, whence := range []int{kafka.SeekStart, kafka.SeekAbsolute, kafka.SeekEnd, kafka.SeekCurrent} {
 			for _, dc := range []int{0, kafka.SeekDontCheck} {
